@@ -234,3 +234,18 @@ def restart_target(uid, d2='X', *, dk=0, kind='ok'):
             except Exception:
                 pass
     return [uid, d2, dk, kind]
+
+
+def pool_target2(x):
+    """C09 pool target: x = [run id, index, flag]; flag True = poison, 'stuck' = never returns."""
+    if x[2] == 'stuck':
+        while True:
+            try:
+                while True:
+                    time.sleep(0.005)
+            except Exception:
+                pass
+    if x[2]:
+        raise PoolDeath(x)
+    time.sleep(0.002)
+    return ['res', x]
